@@ -177,6 +177,13 @@ class Routes:
             self.cmp("UnitDatabase.Convert(u,[(v,1)])", db.Convert(qt, u, [(v, 1)], float(x0)), [r0], case, au, av, [x0])
             self.cmp("UnitDatabase.Convert([(u,1)],v)", db.Convert(qt, [(u, 1)], v, float(x0)), [r0], case, au, av, [x0])
             self.cmp("UnitDatabase.Convert(((u,1),),((v,1),))", db.Convert(qt, ((u, 1),), ((v, 1),), float(x0)), [r0], case, au, av, [x0])
+            # one number that is an instance of a subclass of float / int (what array[i], array.min() and tuple(row) hand out; a bool)
+            q_ = ObtainQuantity(u, c)
+            self.cmp("UnitDatabase.Convert(numpy.float64)", [float(db.Convert(qt, u, v, np.float64(x0)))], [r0], case, au, av, [x0])
+            self.cmp("Quantity.Convert(numpy.float64)", [float(q_.Convert(np.float64(x0), v))], [r0], case, au, av, [x0])
+            self.cmp("Quantity.ConvertScalarValue(numpy.float64)", [float(q_.ConvertScalarValue(np.float64(x0), v))], [r0], case, au, av, [x0])
+            self.cmp("UnitDatabase.Convert(True)", [float(db.Convert(qt, u, v, True))], [db.Convert(qt, u, v, 1.0)], case, au, av, [1.0])
+            self.cmp("Array[tuple of numpy.float64 rows].GetValues", [float(t) for row in Array(c, (tuple(np.array(xs, dtype=float)),), u).GetValues(v) for t in row], ref, case, au, av, xs, list)
             # numbers that are not Python floats inside a list / a tuple are numbers all the same
             import fractions
 
